@@ -360,7 +360,67 @@ def run_case(ctx, rng, idx):
         W.close()
 
 
+def persist_then_close_case(ctx, rng, idx):
+    """One connection, three phases: a keep-alive request; silence for several timeouts (the connection is persistent and
+    stays); a last request that asks to close and whose application produces nothing for a few service passes (an upload
+    being stored, a slow lookup).  The request has just arrived, so the idle timer - which applies again to a connection
+    that is no longer kept alive - must not drop it: the response arrives complete."""
+    from vf import httpgen as hg
+    from ioflo.aid.odicting import odict
+    T = rng.choice((1.0, 2.0))
+    quiet = rng.choice((2, 3, 5)) * T + rng.choice((0.0, 0.25))
+    lag = rng.randint(1, 4)              # service passes before the application's first byte
+    state = {"n": 0}
+
+    def app(environ, start_response):
+        path = environ.get("PATH_INFO")
+        start_response("200 OK", [("Content-Type", "text/plain")])
+        if path == "/last":
+            for _ in range(lag):
+                yield b""
+        yield b"answer to " + path.encode()
+    pair = hg.Pair(app, rng=rng, mem=True, timeout=T)
+    dt = rng.choice((0.125, 0.25))
+    try:
+        patron = pair.patron()
+        patron.request(method="GET", path="/first")
+        pair.pump(lambda: len(patron.responses) >= 1, cap=60)
+        if len(patron.responses) != 1:
+            ctx.inconclusive_case("the keep-alive exchange did not complete")
+            return
+        t = 0.0
+        while t < quiet:
+            pair.store.advanceStamp(dt)
+            t += dt
+            pair.round()
+        alive = bool(pair.servant.ixes)
+        patron.request(method="GET", path="/last", headers=odict([("Connection", "close")]))
+        for _ in range(80):
+            if len(patron.responses) >= 2:
+                break
+            pair.store.advanceStamp(dt)
+            pair.round()
+        ctx.event(pair.rounds)
+        ctx.case(("persist-then-close", T, quiet, lag, dt), nontrivial=True)
+        ctx.hit("persist_then_close_cases")
+        got = [(r["status"], bytes(r["body"]), bool(r["errored"])) for r in patron.responses]
+        w = lambda: {"timeout": T, "quiet_seconds": quiet, "passes_before_first_byte": lag, "store_step": dt, "responses": repr(got),
+                     "connection_alive_after_the_quiet_time": alive}
+        ctx.check(alive, "Valet/plain/persisted-connection-closed-by-server/three-phase",
+                  "a connection kept alive by HTTP persistence was gone after %.2f s of quiet (timeout %.1f)" % (quiet, T), w)
+        if alive:
+            ctx.check(got[1:] == [(200, b"answer to /last", False)], "Valet/plain/last-request-of-a-persistent-connection-dropped-by-a-stale-idle-timer",
+                      "the last request of a connection that had been kept alive (Connection: close, application silent for %d passes) did "
+                      "not get its complete answer: %r" % (lag, got[1:]), w)
+    finally:
+        pair.close()
+
+
 def worker(ctx, job):
+    if job.get("ptc"):
+        rng = ctx.subrng("c28ptc", job["k"])
+        for i in range(job["ptc"]):
+            persist_then_close_case(ctx, rng, i)
     from ioflo.aid.consoling import getConsole
     console = getConsole()
     console.reinit(verbosity=console.Wordage.mute)
@@ -371,7 +431,8 @@ def worker(ctx, job):
 
 def run(ctx):
     K = ctx.pick(12, 16)
-    jobs = [{"k": k, "N": ctx.pick(30, 1500)} for k in range(K)]
+    jobs = [{"k": k, "N": ctx.pick(30, 1500), "ptc": ctx.pick(6, 120)} for k in range(K)]
+    ctx.floor("persist_then_close_cases", ctx.pick(50, 1000))
     ctx.shard(jobs, timeout=ctx.pick(120, 1500))
     for sock in ("plain", "tls"):
         ctx.floor("active_beyond_timeout_%s" % sock, ctx.pick(60, 900))
